@@ -35,6 +35,12 @@ Sets ==
     s5 |-> <<DSchemaQ, DQ1, DA1, DE>>,
     \* an explicit schema block naming only the query root; objects that merely carry the conventional root names
     s9 |-> <<SchemaD(<<RootD("query", "Top")>>), ObjectD("Top", <<>>, <<FieldD("n", I, <<>>), FieldD("m", Named("Mutation"), <<>>)>>), DMut2, DSub>>,
+    \* a schema block extended by a later (or the same) document; the root type arrives with the extension
+    s10 |-> <<SchemaD(<<RootD("query", "Query")>>), DQ1, DA1, DE, Ext(SchemaD(<<RootD("mutation", "Mutation")>>)), DMut2>>,
+    \* invalid as a whole, whatever the split: the interface gains a field its implementor (loaded earlier or not) lacks
+    s11 |-> <<DQuery, DA, DB, DN, FXIface>>,
+    \* invalid: the roots made up from the type names are no schema block, a schema extension has nothing to extend
+    s12 |-> <<DQ1, DA1, DE, DMut2, XSchemaMut>>,
     s6 |-> <<DQ1, DA1, DE, FIface, DN>>,          \* invalid: Z does not provide N.name
     s7 |-> <<DQ1, DA1, FInOut, DE>> ]              \* invalid: input field of object type
 
@@ -88,7 +94,8 @@ Resolvable == \A k \in 1..(Len(hist) - 1) : hist[k].ok      \* intermediate load
 \* an extend block must come after the definition it extends; other orders are not arrangements of the same schema
 ExtendAfterDef ==
   \A i \in DOMAIN base : base[i].ext => \E j \in 1..(i - 1) : ~base[j].ext /\ base[j].name = base[i].name /\ base[j].kind = base[i].kind
-InScope == phase = "done" /\ hist # <<>> /\ Resolvable /\ (Ref.ok \/ Len(hist) = 1)
+\* (for a set that is invalid as a whole the arrangements in scope are those that get as far as the last load)
+InScope == phase = "done" /\ hist # <<>> /\ Resolvable
 
 OrderFree == InScope =>
   /\ hist[Len(hist)].ok = Ref.ok
